@@ -119,6 +119,8 @@ class World:
         self.extra_conns = []
         self.randint_value = 5
         self.randbits_value = 77
+        self.spawned = []
+        self.thread_start_fails = False
 
     # ---------------------------------------------------------------- shims
     def install(self):
@@ -150,6 +152,27 @@ class World:
             SOL_SOCKET=1, SO_REUSEADDR=2, SO_LINGER=13, SO_ERROR=4)
         node_mod.select = types.SimpleNamespace(select=self.select)
         helpers.StoppableThread.start = lambda self_: w.started.append(self_)
+
+        class VThread:
+            """threading.Thread double for application.py: start() registers, the harness runs the target when it chooses"""
+
+            def __init__(self_, group=None, target=None, name=None, args=(), kwargs=None, daemon=None):
+                self_.target, self_.args, self_.kwargs = target, args, kwargs or {}
+                self_.ran = False
+
+            def start(self_):
+                if w.thread_start_fails:
+                    raise RuntimeError("can't start new thread")
+                w.spawned.append(self_)
+
+            def run_now(self_):
+                self_.ran = True
+                return self_.target(*self_.args, **self_.kwargs)
+
+            def join(self_, timeout=None):
+                pass
+        import threading as _real_threading
+        app_mod.threading = types.SimpleNamespace(Thread=VThread, Event=_real_threading.Event, Lock=_real_threading.Lock)
         self.node_mod, self.peer_mod, self.helpers, self.app_mod = node_mod, peer_mod, helpers, app_mod
 
     # ---------------------------------------------------------------- select model
